@@ -24,7 +24,7 @@ examine = accept.examine_reject
 
 def plan(tier, seed):
     if tier == "quick":
-        return [{"n": 300} for _ in range(16)]
+        return [{"n": 800} for _ in range(16)]
     return [{"n": 8000} for _ in range(16)]
 
 
